@@ -1,8 +1,20 @@
+#![allow(dead_code)]
 mod asm65;
+mod ast;
+mod cref;
 mod drv;
 mod emu65;
+mod engine;
+mod exec;
+mod corpus;
+mod cparse;
+mod gen;
+mod gen2;
+mod props;
+mod sem;
 
-use std::collections::HashMap;
+use engine::Tier;
+use std::collections::{BTreeSet, HashMap};
 
 fn cmd_cc(args: &[String]) {
     let src = std::fs::read(&args[0]).expect("read source");
@@ -32,10 +44,14 @@ fn cmd_cc(args: &[String]) {
     }
 }
 
+fn root_dir() -> String {
+    std::env::var("VERIF_ROOT").unwrap_or_else(|_| "/verif".to_string())
+}
+
 fn main() {
     let args: Vec<String> = std::env::args().collect();
     if args.len() < 2 {
-        eprintln!("usage: vcheck <selftest|cc|check|worker|replay> ...");
+        eprintln!("usage: vcheck <selftest|cc|check|worker|solo|replay|count> ...");
         std::process::exit(2);
     }
     drv::install_panic_hook();
@@ -48,6 +64,72 @@ fn main() {
             println!("selftest ok");
         }
         "cc" => cmd_cc(&args[2..]),
+        "count" => {
+            let c = props::get(&args[2]).expect("unknown property");
+            for t in [Tier::Quick, Tier::Thorough] {
+                println!("{} {}: {} cases; bounds {}", args[2], t.name(), c.n_cases(t), c.bounds(t));
+            }
+        }
+        "check" => {
+            // check <ID> <tier> [jobs]
+            let c = match props::get(&args[2]) {
+                Some(c) => c,
+                None => {
+                    eprintln!("unknown property {}", args[2]);
+                    std::process::exit(2);
+                }
+            };
+            let tier = Tier::parse(&args[3]).expect("tier");
+            let jobs = args.get(4).and_then(|s| s.parse::<usize>().ok()).unwrap_or_else(|| std::thread::available_parallelism().map(|n| n.get()).unwrap_or(8));
+            let seed = std::env::var("VERIF_SEED").ok().and_then(|s| s.parse::<u64>().ok()).unwrap_or(0);
+            if let Err(e) = emu65::selftest() {
+                println!("MACHINERY-ERROR: emulator self-test failed: {}", e);
+                std::process::exit(2);
+            }
+            let r = engine::orchestrate(c.as_ref(), tier, &root_dir(), jobs, seed);
+            std::process::exit(r.exit);
+        }
+        "worker" => {
+            // worker <ID> <tier> <shard> <nshards> <out> <seed> <deadline> <skiplist>
+            let c = props::get(&args[2]).expect("unknown property");
+            let tier = Tier::parse(&args[3]).expect("tier");
+            let shard: usize = args[4].parse().unwrap();
+            let nshards: usize = args[5].parse().unwrap();
+            let out = &args[6];
+            let seed: u64 = args[7].parse().unwrap();
+            let deadline: u64 = args[8].parse().unwrap();
+            let mut skip = BTreeSet::new();
+            if let Some(s) = args.get(9) {
+                for x in s.split(',') {
+                    if let Ok(k) = x.parse::<usize>() {
+                        skip.insert(k);
+                    }
+                }
+            }
+            std::process::exit(engine::worker(c.as_ref(), tier, shard, nshards, &skip, out, seed, deadline));
+        }
+        "solo" => {
+            // solo <ID> <tier> <idx> [out]
+            let c = props::get(&args[2]).expect("unknown property");
+            let tier = Tier::parse(&args[3]).expect("tier");
+            let idx: usize = args[4].parse().unwrap();
+            let out = args.get(5).map(|s| s.as_str());
+            std::process::exit(engine::solo(c.as_ref(), tier, idx, out, out.is_some()));
+        }
+        "replay" => {
+            let txt = std::fs::read_to_string(&args[2]).expect("read replay file");
+            let v: serde_json::Value = serde_json::from_str(&txt).expect("replay json");
+            let c = props::get(v["property"].as_str().unwrap()).expect("unknown property");
+            let tier = Tier::parse(v["tier"].as_str().unwrap()).unwrap();
+            let idx = v["idx"].as_u64().unwrap() as usize;
+            let a = engine::solo(c.as_ref(), tier, idx, None, false);
+            let b = engine::solo(c.as_ref(), tier, idx, None, true);
+            if a != b {
+                println!("MACHINERY-ERROR: replay is not deterministic");
+                std::process::exit(2);
+            }
+            std::process::exit(a);
+        }
         _ => {
             eprintln!("unknown command");
             std::process::exit(2);
